@@ -29,10 +29,11 @@ const vsyncPath = modPath + "/verifshim/vsync"
 var pkgDirs = []string{".", "internal/ignorefiles", "internal/unpackinfo", "sourcebundle", "sourceaddrs"}
 
 type pkgInfo struct {
-	dir   string
-	ipath string
-	files map[string]*ast.File
-	vars  map[string]bool
+	dir     string
+	ipath   string
+	files   map[string]*ast.File
+	vars    map[string]bool
+	methods map[string]bool // names of methods declared in the package (recv.m(...) is a call, not a field access)
 }
 
 func main() {
@@ -49,7 +50,7 @@ func main() {
 		if d != "." {
 			ip += "/" + d
 		}
-		pi := &pkgInfo{dir: d, ipath: ip, files: map[string]*ast.File{}, vars: map[string]bool{}}
+		pi := &pkgInfo{dir: d, ipath: ip, files: map[string]*ast.File{}, vars: map[string]bool{}, methods: map[string]bool{}}
 		ents, err := os.ReadDir(filepath.Join(repo, d))
 		if err != nil {
 			fail(err)
@@ -65,6 +66,11 @@ func main() {
 				fail(err)
 			}
 			pi.files[p] = f
+			for _, decl := range f.Decls {
+				if fd, ok := decl.(*ast.FuncDecl); ok && fd.Recv != nil {
+					pi.methods[fd.Name.Name] = true
+				}
+			}
 			for _, decl := range f.Decls {
 				gd, ok := decl.(*ast.GenDecl)
 				if !ok || gd.Tok != token.VAR {
@@ -188,10 +194,20 @@ func instrumentFile(fset *token.FileSet, f *ast.File, path, repo string, pi *pkg
 		}
 		return false
 	}
+	recvName := ""
+	syncMethods := map[string]bool{"Lock": true, "Unlock": true, "RLock": true, "RUnlock": true, "TryLock": true}
 	var mentions func(n ast.Node, tainted map[string]bool) bool
 	mentions = func(n ast.Node, tainted map[string]bool) bool {
 		if n == nil {
 			return false
+		}
+		// a bare lock/unlock call statement is a scheduling point of its own
+		if es, ok := n.(*ast.ExprStmt); ok {
+			if ce, ok := es.X.(*ast.CallExpr); ok {
+				if se, ok := ce.Fun.(*ast.SelectorExpr); ok && syncMethods[se.Sel.Name] && len(ce.Args) == 0 {
+					return false
+				}
+			}
 		}
 		found := false
 		ast.Inspect(n, func(x ast.Node) bool {
@@ -212,12 +228,22 @@ func instrumentFile(fset *token.FileSet, f *ast.File, path, repo string, pi *pkg
 						}
 					}
 				}
+				// the receiver counts only through its fields: recv.method(...) and a bare recv are not accesses
+				if id, ok := v.X.(*ast.Ident); ok && recvName != "" && id.Name == recvName {
+					if !pi.methods[v.Sel.Name] {
+						found = true
+					}
+					return false
+				}
 				// still look at X (e.g. pkgvar.field)
 				if mentions(v.X, tainted) {
 					found = true
 				}
 				return false
 			case *ast.Ident:
+				if v.Name == recvName && recvName != "" {
+					return true
+				}
 				if isPkgVar(v) || tainted[v.Name] {
 					found = true
 				}
@@ -245,6 +271,7 @@ func instrumentFile(fset *token.FileSet, f *ast.File, path, repo string, pi *pkg
 	}
 	var doList func(list []ast.Stmt, tainted map[string]bool) []ast.Stmt
 	var doStmt func(st ast.Stmt, tainted map[string]bool)
+	done := map[*ast.FuncLit]bool{}
 	doList = func(list []ast.Stmt, tainted map[string]bool) []ast.Stmt {
 		var out []ast.Stmt
 		for _, st := range list {
@@ -270,6 +297,27 @@ func instrumentFile(fset *token.FileSet, f *ast.File, path, repo string, pi *pkg
 				}
 			}
 			doStmt(st, tainted)
+			// function literals inside this statement (e.g. the walk function a method returns)
+			ast.Inspect(st, func(x ast.Node) bool {
+				switch v := x.(type) {
+				case *ast.BlockStmt:
+					if v != nil && !isBodyOf(st, v) {
+						return true
+					}
+					return true
+				case *ast.FuncLit:
+					if !done[v] {
+						done[v] = true
+						inner := map[string]bool{}
+						for k := range tainted {
+							inner[k] = true
+						}
+						v.Body.List = doList(v.Body.List, inner)
+					}
+					return false
+				}
+				return true
+			})
 			out = append(out, st)
 		}
 		return out
@@ -311,7 +359,17 @@ func instrumentFile(fset *token.FileSet, f *ast.File, path, repo string, pi *pkg
 		if !ok || fd.Body == nil {
 			continue
 		}
-		fd.Body.List = doList(fd.Body.List, map[string]bool{})
+		t0 := map[string]bool{}
+		// a pointer receiver is an object other goroutines may share: its fields count as shared state
+		// (only for the packages whose objects callers share: Packer, Builder, Bundle)
+		recvName = ""
+		if (pi.dir == "." || pi.dir == "sourcebundle") && fd.Recv != nil && len(fd.Recv.List) == 1 && len(fd.Recv.List[0].Names) == 1 {
+			if _, isPtr := fd.Recv.List[0].Type.(*ast.StarExpr); isPtr && fd.Recv.List[0].Names[0].Name != "_" {
+				recvName = fd.Recv.List[0].Names[0].Name
+			}
+		}
+		fd.Body.List = doList(fd.Body.List, t0)
+		recvName = ""
 	}
 	if points > 0 {
 		changed = true
@@ -337,6 +395,8 @@ func instrumentFile(fset *token.FileSet, f *ast.File, path, repo string, pi *pkg
 	}
 	return
 }
+
+func isBodyOf(st ast.Stmt, b *ast.BlockStmt) bool { return false }
 
 func isNilNode(n ast.Node) bool {
 	switch v := n.(type) {
